@@ -15,6 +15,7 @@ structure SimpleSt where
   inner : St
   handling : List Nat       -- priorities of the items whose `Handle` call is running
   picked : Nat              -- how many delivered items the handlers have received so far
+  handled : List (Nat × Nat × Nat)   -- (priority, channel, item) of every `Handle` call made, in order (ghost)
   deriving Repr
 
 inductive SAct
@@ -31,7 +32,7 @@ def sstep (div : DivFn) (s : SimpleSt) : SAct → Option SimpleSt
   | .inner a => if isRelease a then none else (step div s.inner a).map (fun i => { s with inner := i })
   | .take =>
     match s.inner.delivered[s.picked]? with
-    | some d => some { s with handling := d.1 :: s.handling, picked := s.picked + 1 }
+    | some d => some { s with handling := d.1 :: s.handling, picked := s.picked + 1, handled := s.handled ++ [d] }
     | none => none
   | .finish p =>
     if p ∈ s.handling then
@@ -44,6 +45,6 @@ def srun (div : DivFn) (s : SimpleSt) : List SAct → Option SimpleSt
     | some s' => srun div s' as
     | none => none
 
-def sinit (s0 : St) : SimpleSt := { inner := s0, handling := [], picked := s0.delivered.length }
+def sinit (s0 : St) : SimpleSt := { inner := s0, handling := [], picked := s0.delivered.length, handled := [] }
 
 end Cqos
